@@ -32,7 +32,7 @@ def selftest():
 
 
 def REQUIRED_COVER(tier):
-    return {'wc:-128', 'wc:127', 'variant:test-only', 'variant:std-base64', 'subst', 'raw'}
+    return {'wc:-128', 'wc:127', 'variant:test-only', 'variant:std-base64', 'subst', 'raw', 'rerender'}
 
 
 def ref_friendly(wc, acc, bounceable, test_only, url_safe):
@@ -107,6 +107,22 @@ def case_roundtrip(rec, wc, acc_hex):
                     rec.violation('friendly:flags', f'{s}: flags bounceable={b.is_bounceable} test_only={b.is_test_only}, rendered with {bounce}/{test}', 'case_roundtrip', args)
                 elif hash(b) != hash(a) or len({a, b}) != 1:
                     rec.violation('friendly:hash', f'{s}: equal addresses hash differently', 'case_roundtrip', args)
+                # an object obtained by PARSING renders every form exactly like one built from (workchain, hash):
+                # the requested flags decide, not the flags of the text it came from
+                for b2, t2, u2 in ((x, y, z) for x in (True, False) for y in (False, True) for z in (True, False)):
+                    rec.trans()
+                    try:
+                        s2 = b.to_str(is_user_friendly=True, is_url_safe=u2, is_bounceable=b2, is_test_only=t2)
+                    except Exception as e:
+                        rec.violation('friendly:rerender-raises', f'object parsed from {s}: to_str raised {exc_name(e)}: {e}', 'case_roundtrip', args)
+                        break
+                    if s2 != ref_friendly(wc, acc, b2, t2, u2):
+                        rec.violation('friendly:rerender', f'object parsed from {s} (bounce={bounce}, test={test}) renders bounce={b2}, test={t2}, url={u2} as {s2}, '
+                                      f'reference {ref_friendly(wc, acc, b2, t2, u2)}', 'case_roundtrip', args)
+                        break
+                if b.to_str(is_user_friendly=False) != raw:
+                    rec.violation('friendly:rerender-raw', f'object parsed from {s} renders the raw form differently', 'case_roundtrip', args)
+                rec.covered('rerender')
                 rec.outcome('ok')
 
 
